@@ -702,6 +702,90 @@ func run(c *lib.Ctx) {
 		}
 	}()
 
+	// (the cheap groups G7 and G8 run first so that a loaded machine still covers them)
+	// ---- G7 SimpleIter over a stored btree only: every key subset, every range, skip-scan
+	if want("G7") {
+		strs := append(opStrings(np, 5, nil), opStrings([]string{"N", "P", "R"}, 4, hasR)...)
+		for _, u := range []*universe{u4, us, us3} {
+			n := len(u.keys)
+			var rs []rangeSpec
+			if u.pre == nil {
+				rs = rangesFor(u, true)
+			} else {
+				for _, p := range [][2]string{{ixkey.Min, ixkey.Max}, {ixkey.Min, "q"}, {"q", "q\x01"}, {"p", "p\x01"}} {
+					for _, s := range [][2]string{{ixkey.Min, ixkey.Max}, {ixkey.Min, "\x01"}, {"s", "s\x01"}, {"s", ixkey.Max}, {"\x01", "u"}} {
+						rs = append(rs, rangeSpec{Org: p[0], End: p[1], Skip: true, SOrg: s[0], SEnd: s[1]})
+					}
+				}
+			}
+			c.Par(1<<n, func(m int) {
+				sel := make([]string, n)
+				for k := range sel {
+					sel[k] = map[bool]string{true: "P.", false: ".."}[m>>k&1 == 1]
+				}
+				for _, rg := range rs {
+					r.sweep(caseSpec{Group: "simpleiter", Universe: u.Name, Lines: sel, Simple: true, Rng: rg}, strs)
+				}
+			})
+		}
+	}
+	// ---- G8 long index (72 keys: several btree levels, ixbuf chunks of 24 split): structured stacks, walks
+	if want("G8") {
+		u := ul
+		n := len(u.keys)
+		mk := func(f func(k int) string) []string {
+			sel := make([]string, n)
+			for k := range sel {
+				sel[k] = f(k)
+			}
+			return sel
+		}
+		stacks := [][]string{
+			mk(func(k int) string { return []string{"P...", ".a..", "Pd..", "..a.", "Pu.d", "...a"}[k%6] }),
+			mk(func(k int) string { return []string{".a..", ".a.d", ".au.", "...a"}[k%4] }),
+			mk(func(k int) string {
+				if k%9 == 4 {
+					return "P..."
+				}
+				return "Pd.."
+			}),
+			mk(func(k int) string { return []string{"P...", "P..d", "P.d.", "Pd.a"}[(k/8)%4] }),
+		}
+		var walks [][]string
+		rep := func(tok string, n int) []string {
+			w := make([]string, n)
+			for i := range w {
+				w[i] = tok
+			}
+			return w
+		}
+		walks = append(walks, rep("N", n+2), rep("P", n+2))
+		for _, a := range []int{3, 7, 25} {
+			for _, b := range []int{1, 2, 5} {
+				var w, w2 []string
+				for len(w) < 3*n {
+					w = append(append(w, rep("N", a)...), rep("P", b)...)
+					w2 = append(append(w2, rep("P", a)...), rep("N", b)...)
+				}
+				walks = append(walks, w, w2)
+			}
+		}
+		// with modifications every few steps
+		var wm []string
+		for i := 0; len(wm) < 4*n; i++ {
+			wm = append(wm, "N", "N", "N", fmt.Sprintf("t%c", '0'+byte((i*7)%n)), "P")
+		}
+		walks = append(walks, wm)
+		var rs []rangeSpec
+		for _, o := range []string{ixkey.Min, "k05", "k23\x01", "k24"} {
+			for _, e := range []string{ixkey.Max, "k71", "k48", "k25"} {
+				rs = append(rs, rangeSpec{Org: o, End: e})
+			}
+		}
+		c.Par(len(stacks)*len(rs), func(i int) {
+			r.sweep(caseSpec{Group: "long", Universe: u.Name, Lines: stacks[i/len(rs)], WithMut: true, Rng: rs[i%len(rs)]}, walks)
+		})
+	}
 	// ---- G1 layering: every life line of every key, N/P/R strings
 	layering := func(u *universe, strs [][]string, rs []rangeSpec) {
 		lines := lifeLines(3)
@@ -909,89 +993,6 @@ func run(c *lib.Ctx) {
 					r.sweep(caseSpec{Group: "skip-scan-3-groups", Universe: u.Name, Lines: sel, WithMut: true, Rng: rg}, strs)
 				}
 			})
-		})
-	}
-	// ---- G7 SimpleIter over a stored btree only: every key subset, every range, skip-scan
-	if want("G7") {
-		strs := append(opStrings(np, 5, nil), opStrings([]string{"N", "P", "R"}, 4, hasR)...)
-		for _, u := range []*universe{u4, us, us3} {
-			n := len(u.keys)
-			var rs []rangeSpec
-			if u.pre == nil {
-				rs = rangesFor(u, true)
-			} else {
-				for _, p := range [][2]string{{ixkey.Min, ixkey.Max}, {ixkey.Min, "q"}, {"q", "q\x01"}, {"p", "p\x01"}} {
-					for _, s := range [][2]string{{ixkey.Min, ixkey.Max}, {ixkey.Min, "\x01"}, {"s", "s\x01"}, {"s", ixkey.Max}, {"\x01", "u"}} {
-						rs = append(rs, rangeSpec{Org: p[0], End: p[1], Skip: true, SOrg: s[0], SEnd: s[1]})
-					}
-				}
-			}
-			c.Par(1<<n, func(m int) {
-				sel := make([]string, n)
-				for k := range sel {
-					sel[k] = map[bool]string{true: "P.", false: ".."}[m>>k&1 == 1]
-				}
-				for _, rg := range rs {
-					r.sweep(caseSpec{Group: "simpleiter", Universe: u.Name, Lines: sel, Simple: true, Rng: rg}, strs)
-				}
-			})
-		}
-	}
-	// ---- G8 long index (72 keys: several btree levels, ixbuf chunks of 24 split): structured stacks, walks
-	if want("G8") {
-		u := ul
-		n := len(u.keys)
-		mk := func(f func(k int) string) []string {
-			sel := make([]string, n)
-			for k := range sel {
-				sel[k] = f(k)
-			}
-			return sel
-		}
-		stacks := [][]string{
-			mk(func(k int) string { return []string{"P...", ".a..", "Pd..", "..a.", "Pu.d", "...a"}[k%6] }),
-			mk(func(k int) string { return []string{".a..", ".a.d", ".au.", "...a"}[k%4] }),
-			mk(func(k int) string {
-				if k%9 == 4 {
-					return "P..."
-				}
-				return "Pd.."
-			}),
-			mk(func(k int) string { return []string{"P...", "P..d", "P.d.", "Pd.a"}[(k/8)%4] }),
-		}
-		var walks [][]string
-		rep := func(tok string, n int) []string {
-			w := make([]string, n)
-			for i := range w {
-				w[i] = tok
-			}
-			return w
-		}
-		walks = append(walks, rep("N", n+2), rep("P", n+2))
-		for _, a := range []int{3, 7, 25} {
-			for _, b := range []int{1, 2, 5} {
-				var w, w2 []string
-				for len(w) < 3*n {
-					w = append(append(w, rep("N", a)...), rep("P", b)...)
-					w2 = append(append(w2, rep("P", a)...), rep("N", b)...)
-				}
-				walks = append(walks, w, w2)
-			}
-		}
-		// with modifications every few steps
-		var wm []string
-		for i := 0; len(wm) < 4*n; i++ {
-			wm = append(wm, "N", "N", "N", fmt.Sprintf("t%c", '0'+byte((i*7)%n)), "P")
-		}
-		walks = append(walks, wm)
-		var rs []rangeSpec
-		for _, o := range []string{ixkey.Min, "k05", "k23\x01", "k24"} {
-			for _, e := range []string{ixkey.Max, "k71", "k48", "k25"} {
-				rs = append(rs, rangeSpec{Org: o, End: e})
-			}
-		}
-		c.Par(len(stacks)*len(rs), func(i int) {
-			r.sweep(caseSpec{Group: "long", Universe: u.Name, Lines: stacks[i/len(rs)], WithMut: true, Rng: rs[i%len(rs)]}, walks)
 		})
 	}
 	// ---- G9 (thorough) layering with 4 keys: every life line of every key
